@@ -310,6 +310,57 @@ def run(ctx):
         if i < ctx.nshards:
             ctx.sample({"section": "model_errors", "card": cards.short(card), "n_free": n, "expressions": [e[0] for e in exprs], "ref_ff_errors": {str(k): v for k, v in list(ref_err.items())[:3]}}, limit=2)
 
+    # ------------------------------------------------------------ (a') the parameter manager's own fit: VarsManager.minimize / minimize_error on a
+    # quadratic NLL 0.5 (v-c)^T A (v-c) with the minimum inside the bounds: the reported errors are sqrt(diag A^-1) in the physical parameters
+    from tf_pwa.variable import VarsManager
+
+    n_vm = ctx.pick(24, 400)
+    for i, rng in ctx.cases("vm_minimize", n_vm):
+        nv = int(rng.integers(2, 5))
+        Aq = rng.normal(size=(nv, nv))
+        Aq = Aq @ Aq.T / nv + 0.3 * np.eye(nv)
+        cq = rng.uniform(-1.0, 1.0, nv)
+        vmq = VarsManager()
+        names_q = ["q%d" % k for k in range(nv)]
+        for k_, nm_ in enumerate(names_q):
+            vmq.add_real_var(nm_, value=float(cq[k_] + rng.uniform(-0.3, 0.3)))
+        bnd = {}
+        for k_, nm_ in enumerate(names_q):
+            u = rng.random()
+            if u < 0.45:
+                lo_, hi_ = float(cq[k_] - rng.uniform(0.5, 2.0)), float(cq[k_] + rng.uniform(0.5, 2.0))
+                bnd[nm_] = [(lo_, hi_), (lo_, None), (None, hi_)][int(rng.integers(3))]
+        if i % 4 == 0:
+            bnd = {}
+        if bnd:
+            vmq.set_bound(bnd)
+        At, ct = tf.constant(Aq), tf.constant(cq)
+
+        def fq():
+            v = tf.stack([vmq.variables[nm_] for nm_ in names_q]) - ct
+            return 0.5 * tf.reduce_sum(v * tf.linalg.matvec(At, v))
+
+        method = ["BFGS", "L-BFGS-B"][i % 2]
+        desc = {"A": Aq, "minimum": cq, "bounds": bnd, "method": method}
+        try:
+            with quiet():
+                ret = vmq.minimize(fq, method=method)
+                x_min = np.array([float(vmq.variables[nm_].numpy()) for nm_ in names_q])
+                if np.max(np.abs(x_min - cq)) > 1e-4:
+                    ctx.count("vm_minimize not converged (not judged)")
+                    continue
+                ret.hess_inv = None  # the exact route of minimize_error (second derivatives of the NLL)
+                err = np.asarray(vmq.minimize_error(fq, ret), dtype=float)
+            ref = np.sqrt(np.diag(np.linalg.inv(Aq)))
+            dv = float(np.max(np.abs(err - ref) / ref))
+            ctx.dev("vm.minimize_error vs sqrt(diag inv A)", dv, 1e-5)
+            ctx.check("hesse error == sqrt(diag inv H)", dv < 1e-5, lambda: dict(desc, lib_error=err, ref_error=ref),
+                      mechanism="VarsManager.minimize_error" + (" (bounded parameters)" if bnd else ""))
+            ctx.case(("vmq", i), nontrivial=bool(bnd))
+            ctx.covered("vm_minimize_bounds", bool(bnd))
+        except Exception as e:
+            ctx.violation("hesse error == sqrt(diag inv H)", ctx.exc_witness(e, **desc), mechanism="VarsManager.minimize / minimize_error raises")
+
     # ------------------------------------------------------------ (a) Hesse errors on toy likelihoods
     n_h = ctx.pick(10, 60)
     for i, rng in ctx.cases("hesse", n_h, budget_s=ctx.pick(300, 2000)):
